@@ -76,13 +76,14 @@ Section Warrant.
   Inductive SP : hist -> prog -> Prop :=
   | SP_done h r : SP h (Done r)
   | SP_do h a k : (forall key, a = ADelete key -> warranted h key) ->
+      (forall key n, a = AStore key n -> key = clean_storage_key) ->
       (forall x, SP ((a, x) :: h) (k x)) -> SP h (Do a k).
 
   Lemma SP_sound W (wexec : act -> W -> resp * W) p : forall h w, SP h p -> all_warranted h ->
     all_warranted (fst (wrun W wexec p w h)).
   Proof.
     induction p as [r|a k IH]; intros h w HS HA; cbn [wrun]; [exact HA|].
-    inversion HS as [|? ? ? Hd Hk]; subst.
+    inversion HS as [|? ? ? Hd _ Hk]; subst.
     destruct (wexec a w) as [x w1]. apply IH; [apply Hk|]. cbn [all_warranted]. split; assumption.
   Qed.
 
@@ -109,24 +110,25 @@ Section Warrant.
   Proof. intros E HK h2 E2. apply HK. exact (hext_trans _ _ _ E2 E). Qed.
 
   Ltac nodel := let key := fresh in let E := fresh in intros key E; discriminate E.
+  Ltac nostore := let key := fresh in let n := fresh in let E := fresh in intros key n E; discriminate E.
 
   Lemma staples_safe kont : do_ocsp o = true -> forall ks h,
     (forall k, In k ks -> listed h prefix_ocsp k) -> K h kont -> K h (staples_prog ks kont).
   Proof.
     intros Ho. induction ks as [|k r IH]; intros h HL HK; cbn [staples_prog]; [exact HK|].
     assert (HLr : forall k', In k' r -> listed h prefix_ocsp k') by (intros k' H; apply HL; right; exact H).
-    intros h1 E1. apply SP_do; [nodel|]. intros c.
+    intros h1 E1. apply SP_do; [nodel|nostore|]. intros c.
     assert (Ec : hext ((ACancelled, c) :: h1) h) by (apply hext_cons; exact E1).
     destruct c as [| | |[|]|]; try exact (HK _ Ec).
-    apply SP_do; [nodel|]. intros x.
+    apply SP_do; [nodel|nostore|]. intros x.
     assert (Ex : hext ((ALoad k, x) :: (ACancelled, XBool false) :: h1) h) by (apply hext_cons; exact Ec).
     destruct x as [[v c| |]| | | |]; try exact (IH h HLr HK _ Ex).
-    apply SP_do; [nodel|]. intros tm.
+    apply SP_do; [nodel|nostore|]. intros tm.
     assert (Et : hext ((ANow, tm) :: (ALoad k, XLoad (LOk v c)) :: (ACancelled, XBool false) :: h1) h)
       by (apply hext_cons; exact Ex).
     destruct tm as [| | | |t]; try exact (IH h HLr HK _ Et).
     destruct (stale_staple t c) eqn:St; [|exact (IH h HLr HK _ Et)].
-    apply SP_do.
+    apply SP_do; [|nostore|].
     - intros key E; injection E; intros <-. apply (WStaple _ _ c t Ho).
       + apply (listed_ext _ h); [exact Et | apply HL; left; reflexivity].
       + exists v. right; left; reflexivity.
@@ -138,7 +140,7 @@ Section Warrant.
   Lemma old_staples_safe kont : do_ocsp o = true -> (forall h, K h kont) ->
     forall h, K h (old_staples_prog kont).
   Proof.
-    intros Ho HK h h1 E1. unfold old_staples_prog. apply SP_do; [nodel|]. intros x.
+    intros Ho HK h h1 E1. unfold old_staples_prog. apply SP_do; [nodel|nostore|]. intros x.
     destruct x as [|[ks|]| | |]; try (apply (HK _ _ (hext_refl _))).
     apply (staples_safe kont Ho ks _ (fun k => listed_here h1 prefix_ocsp ks k) (HK _) _ (hext_refl _)).
   Qed.
@@ -159,7 +161,7 @@ Section Warrant.
       K h (related_prog (trim_suffix clean_trim_suffix a) sufs kont).
     Proof.
       induction sufs as [|x r IH]; intros Hi HK; cbn [related_prog]; [exact HK|].
-      intros h1 E1. apply SP_do.
+      intros h1 E1. apply SP_do; [|nostore|].
       - intros key E; injection E; intros <-. apply cert_warrant; [exact E1|].
         right. apply in_map_iff. exists x. split; [reflexivity | apply Hi; left; reflexivity].
       - intros d. apply IH; [intros y Hy; apply Hi; right; exact Hy | exact HK | apply hext_cons; exact E1].
@@ -174,11 +176,11 @@ Section Warrant.
     assert (L3r : forall a', In a' r -> listed h sk a') by (intros a' H; apply L3; right; exact H).
     destruct (negb (seqb (path_ext a) clean_ext_crt)) eqn:Ext; [exact (IH h L1 L2 L3r HK)|].
     apply negb_false_iff in Ext.
-    intros h1 E1. apply SP_do; [nodel|]. intros x.
+    intros h1 E1. apply SP_do; [nodel|nostore|]. intros x.
     assert (Ex : hext ((ALoad a, x) :: h1) h) by (apply hext_cons; exact E1).
     destruct x as [[v c| |]| | | |]; try exact (HK true _ Ex).
     destruct (as_cert c) eqn:Ac; [|exact (HK true _ Ex)].
-    apply SP_do; [nodel|]. intros tm.
+    apply SP_do; [nodel|nostore|]. intros tm.
     assert (Et : hext ((ANow, tm) :: (ALoad a, XLoad (LOk v c)) :: h1) h) by (apply hext_cons; exact Ex).
     destruct tm as [| | | |t]; try exact (HK true _ Et).
     destruct (expired_cert t (grace o) c) eqn:Xp; [|exact (IH h L1 L2 L3r HK _ Et)].
@@ -188,7 +190,7 @@ Section Warrant.
     assert (Nw : was_now hx t) by (left; reflexivity).
     assert (M1 := listed_ext _ _ _ _ Ex L1). assert (M2 := listed_ext _ _ _ _ Ex L2).
     assert (M3 := listed_ext _ _ _ _ Ex (L3 a (or_introl eq_refl))).
-    apply SP_do.
+    apply SP_do; [|nostore|].
     - intros key E; injection E; intros <-.
       apply (cert_warrant ik sk a c t hx Ho M1 M2 M3 Ext R Nw Xp); [apply hext_refl | left; reflexivity].
     - intros d.
@@ -203,10 +205,10 @@ Section Warrant.
     intros Ho. induction sites as [|sk r IH]; intros h L1 L2 HK; cbn [sites_prog]; [apply HK|].
     assert (L2r : forall s', In s' r -> listed h ik s') by (intros s' H; apply L2; right; exact H).
     assert (Rest : K h (sites_prog (grace o) r kont)) by exact (IH h L1 L2r HK).
-    intros h1 E1. apply SP_do; [nodel|]. intros c.
+    intros h1 E1. apply SP_do; [nodel|nostore|]. intros c.
     assert (Ec : hext ((ACancelled, c) :: h1) h) by (apply hext_cons; exact E1).
     destruct c as [| | |[|]|]; try exact (HK true _ Ec).
-    apply SP_do; [nodel|]. intros x.
+    apply SP_do; [nodel|nostore|]. intros x.
     set (hx := (AList sk, x) :: (ACancelled, XBool false) :: h1).
     assert (Ex : hext hx h) by (apply hext_cons; exact Ec).
     destruct x as [|[assets|]| | |]; try exact (Rest _ Ex).
@@ -215,13 +217,13 @@ Section Warrant.
     apply (assets_safe _ ik sk Ho assets hx M1 M2 (fun a => listed_here _ sk assets a)); [|apply hext_refl].
     intros ab h2 E2. assert (E2h : hext h2 h) by exact (hext_trans _ _ _ E2 Ex).
     destruct ab; [exact (HK true _ E2h)|].
-    apply SP_do; [nodel|]. intros y.
+    apply SP_do; [nodel|nostore|]. intros y.
     assert (Ey : hext ((AList sk, y) :: h2) h) by (apply hext_cons; exact E2h).
     destruct y as [|[[|y0 ys]|]| | |]; try exact (Rest _ Ey).
-    apply SP_do; [nodel|]. intros z.
+    apply SP_do; [nodel|nostore|]. intros z.
     assert (Ez : hext ((AStat sk, z) :: (AList sk, XList (Some [])) :: h2) h) by (apply hext_cons; exact Ey).
     destruct z as [| |[| |]| |]; try exact (Rest _ Ez).
-    apply SP_do.
+    apply SP_do; [|nostore|].
     - intros key E; injection E; intros <-. apply (WFolder _ _ ik h2 Ho).
       + exact (listed_ext _ _ _ _ Ez L1).
       + exact (listed_ext _ _ _ _ Ez (L2 sk (or_introl eq_refl))).
@@ -238,7 +240,7 @@ Section Warrant.
     intros Ho. induction iss as [|ik r IH]; intros h L1 HK; cbn [issuers_prog]; [apply HK|].
     assert (L1r : forall i', In i' r -> listed h prefix_certs i') by (intros i' H; apply L1; right; exact H).
     assert (Rest : K h (issuers_prog (grace o) r kont)) by exact (IH h L1r HK).
-    intros h1 E1. apply SP_do; [nodel|]. intros x.
+    intros h1 E1. apply SP_do; [nodel|nostore|]. intros x.
     set (hx := (AList ik, x) :: h1).
     assert (Ex : hext hx h) by (apply hext_cons; exact E1).
     destruct x as [|[sites|]| | |]; try exact (Rest _ Ex).
@@ -251,15 +253,15 @@ Section Warrant.
   Lemma expired_certs_safe kont : do_certs o = true -> (forall h, K h kont) ->
     forall h, K h (expired_certs_prog (grace o) kont).
   Proof.
-    intros Ho HK h h1 E1. unfold expired_certs_prog. apply SP_do; [nodel|]. intros x.
+    intros Ho HK h h1 E1. unfold expired_certs_prog. apply SP_do; [nodel|nostore|]. intros x.
     destruct x as [|[iss|]| | |]; try (apply (HK _ _ (hext_refl _))).
     apply (issuers_safe _ Ho iss _ (fun i => listed_here h1 prefix_certs iss i) (fun _ => HK _) _ (hext_refl _)).
   Qed.
 
   Lemma record_safe h : K h (record_prog o).
   Proof.
-    intros h1 _. unfold record_prog. apply SP_do; [nodel|]. intros [| | | |t]; try apply SP_done.
-    apply SP_do; [nodel|]. intros [| | |[|]|]; apply SP_done.
+    intros h1 _. unfold record_prog. apply SP_do; [nodel|nostore|]. intros [| | | |t]; try apply SP_done.
+    apply SP_do; [nodel| |]; [intros key n E; injection E; intros _ <-; reflexivity|]. intros [| | |[|]|]; apply SP_done.
   Qed.
   Lemma work_safe h : K h (work_prog o).
   Proof.
@@ -272,10 +274,10 @@ Section Warrant.
   Lemma clean_locked_safe h : SP h (clean_locked_prog o).
   Proof.
     unfold clean_locked_prog. destruct (0 <? interval o); [|exact (work_safe h h (hext_refl _))].
-    apply SP_do; [nodel|]. intros x.
+    apply SP_do; [nodel|nostore|]. intros x.
     destruct x as [[v c| |]| | | |]; try apply SP_done; [|exact (work_safe _ _ (hext_refl _))].
     destruct (as_clean c) as [[ts i]|]; [|apply SP_done].
-    apply SP_do; [nodel|]. intros [| | | |t]; try apply SP_done.
+    apply SP_do; [nodel|nostore|]. intros [| | | |t]; try apply SP_done.
     destruct (cmp_holds clean_interval_cmp (t - ts) (interval o)); [apply SP_done | exact (work_safe _ _ (hext_refl _))].
   Qed.
 
@@ -414,3 +416,90 @@ Section Foreign.
     exact (all_warranted_in o _ Hh (deletes_warranted o st iexec s1) _ _ H).
   Qed.
 End Foreign.
+
+(** * Frame: what the cleaner does not touch, whatever the others do elsewhere *)
+Lemma namespace_prefix x : in_clean_namespace x ->
+  has_prefix ocsp_pfx x = true \/ has_prefix certs_pfx x = true.
+Proof.
+  intros [[c [-> _]]|[(a & Sa & _ & Hin)|(ik & [c1 [-> _]] & [c2 [-> _]])]].
+  - left. apply has_prefix_spec. exists c. unfold ocsp_pfx. rewrite <- app_assoc. reflexivity.
+  - right. pose proof (asset_base_prefix a Sa) as Hb.
+    apply site_assetb_spec in Sa. destruct Sa as [r [Ea _]].
+    destruct Hin as [<-|[<-|[<-|[]]]].
+    + apply has_prefix_spec. eauto.
+    + apply has_prefix_app. exact Hb.
+    + apply has_prefix_app. exact Hb.
+  - right. apply has_prefix_spec. exists (c1 ++ c_sl :: c2). unfold certs_pfx.
+    rewrite <- !app_assoc. reflexivity.
+Qed.
+
+Section Frame.
+  Variables (e : env) (clk : nat -> Z) (fs : list (nat * fop)) (o : opts) (s0 : store) (k : key).
+  Hypotheses (Hout1 : has_prefix ocsp_pfx k = false) (Hout2 : has_prefix certs_pfx k = false)
+             (Hk : k <> spec_last_clean).
+  (** the foreign operation changes the node of k *)
+  Definition touches (f : fop) : bool :=
+    match f with FPut k' _ => seqb k' k | FDel k' => covers k' k end.
+  Hypothesis Hfs : forall i f, In (i, f) fs -> touches f = false.
+
+  Lemma apply_at_frame l i : (forall j f, In (j, f) l -> touches f = false) ->
+    forall s, lookup (apply_at l i s) k = lookup s k.
+  Proof.
+    induction l as [|[j f] r IH]; intros Hl s; [reflexivity|]. cbn [apply_at].
+    rewrite IH by (intros j' f' H; apply (Hl j' f'); right; exact H).
+    destruct (Nat.eqb j i); [|reflexivity].
+    pose proof (Hl j f (or_introl eq_refl)) as T. destruct f as [k' n|k']; cbn [fapply touches] in *.
+    - rewrite lookup_put, T. reflexivity.
+    - rewrite lookup_remove, T. reflexivity.
+  Qed.
+
+  Lemma not_covered x : in_clean_namespace x -> covers x k = false.
+  Proof.
+    intros Hn. destruct (covers x k) eqn:C; [|reflexivity]. exfalso.
+    destruct (namespace_prefix x Hn) as [P|P]; pose proof (covers_prefix _ _ _ P C); congruence.
+  Qed.
+
+  Lemma wrun_frame p : forall s h, SP o h p -> honest h -> lookup (sto s) k = lookup s0 k ->
+    lookup (sto (snd (wrun st (iexec e clk fs) p s h))) k = lookup s0 k.
+  Proof.
+    induction p as [r|a kont IH]; intros s h HS Hh HP; cbn [wrun]; [exact HP|].
+    inversion HS as [|? ? ? Hd Hst Hk']; subst.
+    destruct (iexec e clk fs a s) as [x s1] eqn:Ex.
+    destruct (iexec_spec e clk fs _ _ _ _ Ex) as (_ & Hlist).
+    apply IH; [apply Hk'| |].
+    - intros p ks [E|Hin]; [|exact (Hh p ks Hin)]. injection E; intros -> ->. exact (Hlist p ks eq_refl eq_refl).
+    - unfold iexec in Ex. set (s' := if logs a then interfere fs s else s) in Ex.
+      assert (HP' : lookup (sto s') k = lookup s0 k).
+      { subst s'. destruct (logs a); [|exact HP]. unfold interfere. cbn [sto]. rewrite apply_at_frame; [exact HP | exact Hfs]. }
+      clearbody s'. destruct a as [k0|k0|k0|k0|k0 n| |]; cbn [exec] in Ex.
+      + destruct (do_load e k0 s') as [r s2] eqn:D. injection Ex; intros <- _.
+        rewrite (proj1 (do_load_spec _ _ _ _ _ D)). exact HP'.
+      + destruct (do_list e k0 s') as [r s2] eqn:D. injection Ex; intros <- _.
+        rewrite (proj1 (do_list_spec _ _ _ _ _ D)). exact HP'.
+      + destruct (do_stat e k0 s') as [r s2] eqn:D. injection Ex; intros <- _.
+        rewrite (proj1 (do_stat_spec _ _ _ _ _ D)). exact HP'.
+      + destruct (do_delete e k0 s') as [r s2] eqn:D. injection Ex; intros <- _.
+        destruct (do_delete_spec _ _ _ _ _ D) as [-> | ->]; [exact HP'|].
+        rewrite lookup_remove, (not_covered k0 (warranted_namespace o h k0 Hh (Hd k0 eq_refl))). exact HP'.
+      + destruct (do_store e k0 n s') as [r s2] eqn:D. injection Ex; intros <- _.
+        destruct (do_store_spec _ _ _ _ _ _ D) as [(_ & -> & _)|(-> & _ & _)]; [exact HP'|].
+        rewrite lookup_put, (Hst k0 n eq_refl).
+        destruct consts_ok as (_ & _ & _ & _ & _ & _ & _ & -> & _).
+        destruct (seqb spec_last_clean k) eqn:E; [apply seqb_eq in E; congruence | exact HP'].
+      + injection Ex; intros <- _. exact HP'.
+      + injection Ex; intros <- _. exact HP'.
+  Qed.
+
+  (** a key outside ocsp/ and certificates/ (account data, locks, anything else) other than
+      last_clean.json, whose node no other actor changes, has after the cleaning the node it had
+      before -- whatever the other actors do to other keys, whenever *)
+  Theorem cleani_frame : lookup (sto (snd (cleani e fs o clk s0))) k = lookup s0 k.
+  Proof.
+    unfold cleani, do_lock. destruct (faulty e (St s0 [])); [reflexivity|]. cbn [logged].
+    match goal with |- context [runi e clk fs ?p ?sx] =>
+      pose proof (runi_wrun e clk fs p sx []) as R;
+      pose proof (wrun_frame p sx [] (clean_locked_safe o []) (fun _ _ H => match H with end) eq_refl) as F;
+      destruct (runi e clk fs p sx) as [r s2] end.
+    cbn [snd] in *. unfold do_unlock. cbn [sto logged]. rewrite R. exact F.
+  Qed.
+End Frame.
